@@ -62,7 +62,7 @@ CHECKS = {
  "C02": dict(
     level=("other", "Deductive: TorchBackend._solve_euler and JaxBackend._solve_euler/_solve_heun (nested lax.scan over closures, verified "
             "like loops with inductive invariants over the carry) satisfy the same contracts (euler_iter / heun_iter) as the NumPy loops, for every "
-            "step count, cadence and state, so the backends agree by transitivity. Bounded: torch / jax / fortran vector fields and trajectories against the one reference "
+            "step count, cadence and state, so the backends agree by transitivity; the index hook BaseBackend._process_idx emits i + start resp. (a + start):b for every index and start offset. Bounded: torch / jax / fortran vector fields and trajectories against the one reference "
             "semantics, roll on vectors, interpolated inputs, the JAX/Torch loops called directly, float64 after float32 on JAX.", "5 C02"),
     note="Trusted: as C03 for the loops; documented semantics of jax.lax.scan (assumed contract); spec_rhs/spec_fixed_step; gfortran+f2py+meson, torch, jax as installed. Generated Fortran/XLA/torch kernels are outside any verifier here.",
     technique="contract-based deductive verification of the Torch and JAX solver loops against the shared spec + bounded contract checking of every backend against the spec",
